@@ -127,7 +127,7 @@ def run(tier: str) -> int:
                                     configs=profiles.amr_configs(ams=((1, 'r'),), eols=('lf', 'cr', 'crlf', 'lf_crlf', 'cr_crlf'), lazies=(0, 1)),
                                     ctx_names=['top', 'seq-tail']),
         # every leaf rule: each one's bump_in_this_line / bump_to_next_line shortcut, under three eol policies, eager and lazy
-        profiles.atoms_profile('atoms', ORACLES, cap_q=70, cap_t=700, per_tu=3, exclude=('bol',),   # bol needs column(): no lazy inputs
+        profiles.atoms_profile('atoms', ORACLES, cap_q=70, cap_t=300, per_tu=3, exclude=('bol',),   # bol needs column(): no lazy inputs
                                configs=profiles.amr_configs(ams=((1, 'r'),), eols=('lf_crlf', 'cr', 'crlf'), lazies=(0, 1))),
     ]
 
